@@ -199,7 +199,7 @@ func (j *job) handleJobError(err *error) {
 				if eh.MaxRetries > 0 {
 					eh.MaxRetries = eh.MaxRetries - 1
 					time.AfterFunc(time.Duration(eh.RetryDelay), func() {
-						verifhook.Go(j.runner, "job.rerun")
+						verifhook.Go(j, "job.rerun")
 						j.runner.logger.Infof("re-running job %v (%v). Try number %v", j.title, j.id, eh.MaxRetries)
 						// j.pipeline.sync(j, ctx)
 						j.Run()
